@@ -248,3 +248,49 @@ func TestCondFactsConjunction(t *testing.T) {
 	}
 	t.Errorf("return 1 not found")
 }
+
+const poolSrc = `package fx
+
+import (
+	"bytes"
+	"io"
+	"sync"
+)
+
+var pool = sync.Pool{New: func() any { return new(bytes.Buffer) }}
+
+// bad: the slice returned aliases the buffer that the deferred Put hands back
+func readBad(r io.Reader) ([]byte, error) {
+	buf := pool.Get().(*bytes.Buffer)
+	defer pool.Put(buf)
+	buf.Reset()
+	_, err := buf.ReadFrom(r)
+	return buf.Bytes(), err
+}
+
+// good: the content is copied out before the buffer goes back
+func readGood(r io.Reader) (string, error) {
+	buf := pool.Get().(*bytes.Buffer)
+	defer pool.Put(buf)
+	buf.Reset()
+	_, err := buf.ReadFrom(r)
+	return buf.String(), err
+}
+
+// good: the caller keeps the object (no Put here)
+func take() *bytes.Buffer {
+	return pool.Get().(*bytes.Buffer)
+}
+`
+
+func TestPoolEscapes(t *testing.T) {
+	p := testutil.Load(t, poolSrc)
+	if n := len(ir.PoolEscapes(fn(p, "readBad"))); n == 0 {
+		t.Errorf("readBad: the escape of buf.Bytes() past the deferred Put is not reported")
+	}
+	for _, name := range []string{"readGood", "take"} {
+		if n := len(ir.PoolEscapes(fn(p, name))); n != 0 {
+			t.Errorf("%s: %d escapes reported, want 0", name, n)
+		}
+	}
+}
